@@ -29,8 +29,8 @@ const THOROUGH_BUDGET_CORE_S: f64 = 4300.0;
 const CHUNK: usize = 300;
 /// hand-written programs that are in the universe of both tiers whatever their length: two of the non-ASCII programs (thorough
 /// reaches all five by length) and the five tiny programs with default / named arguments, constructors with defaults, a member function
-const ALWAYS: [&str; 8] =
-    ["hand/accents", "hand/japanese", "tiny/default-args", "tiny/named-args", "tiny/struct-defaults", "tiny/enum-defaults", "tiny/member-fn", "tiny/alias-import"];
+const ALWAYS: [&str; 9] =
+    ["hand/accents", "hand/japanese", "tiny/default-args", "tiny/named-args", "tiny/struct-defaults", "tiny/enum-defaults", "tiny/member-fn", "tiny/alias-import", "tiny/qualified-member"];
 /// thorough: the files whose replacement alphabet is the full 79-token one, and the files with deviation 2
 const FULL_ALPHA_FILES: usize = 12;
 const DEV2_FILES: usize = 3;
@@ -525,8 +525,8 @@ impl Prop for C04 {
         let raw: usize = plan(tier).iter().map(|u| if let U::Dev1(d, _) = u { d.hi - d.lo } else { 0 }).sum();
         format!(
             "corpus = {} programs loaded from the working tree (every r#\"…\"# literal of abra_core/tests/integration/*.rs that imports nothing but pure core modules, \
-             the pure core modules {:?} as main files, the stand-alone examples/*.abra, 5 hand-written non-ASCII programs, 6 tiny hand-written programs with default and named arguments, struct and enum constructors with defaults, a member function, an aliased import), sorted by (length, text). \
-             This tier: {} files = hand/accents, hand/japanese, the six tiny/* programs and the shortest files within a cost budget (the longest has {} bytes; {:?}), each with its complete deviation ≤ 1 neighbourhood = identity + every prefix + every single-token deletion + \
+             the pure core modules {:?} as main files, the stand-alone examples/*.abra, 5 hand-written non-ASCII programs, 7 tiny hand-written programs with default and named arguments, struct and enum constructors with defaults, a member function, an aliased import, type-qualified member calls), sorted by (length, text). \
+             This tier: {} files = hand/accents, hand/japanese, the seven tiny/* programs and the shortest files within a cost budget (the longest has {} bytes; {:?}), each with its complete deviation ≤ 1 neighbourhood = identity + every prefix + every single-token deletion + \
              every replacement of a non-blank token by each of the {}-token alphabet{} + every insertion of one of {:?} at every char boundary + every adjacent-token swap \
              + every replacement of an identifier token by every other identifier that occurs in the same file (Σ over files of identifier tokens × (distinct identifiers − 1)) \
              ({} raw mutants in closed form; texts that repeat an earlier mutant of the same file are skipped and counted){}; \
